@@ -17,7 +17,7 @@ RULE = (
     "nodes, 0-d and size-0 arrays); 1-4 store/to_zarr sinks are drawn over them: fresh path, path+group, existing array with equal "
     "/ different / non-dividing chunking, existing array larger than the source (leading region; rejected when a target chunk would be "
     "written partially), existing array of another (wider) dtype, sharded array, chunk-aligned regions (offsets, last partial chunk, all-slice(None)), "
-    "mis-aligned regions, repeated sources; eager (store()/to_zarr() compute immediately) or lazy (returned arrays computed "
+    "mis-aligned regions, malformed regions (fewer slices than dimensions, negative start, step), repeated sources; eager (store()/to_zarr() compute immediately) or lazy (returned arrays computed "
     "together or one by one), executor in {schedule-permuting sequential, single-threaded, threads}. Existing targets are "
     "pre-filled with a sentinel. Oracle: every target read back with plain zarr equals the expected image (source values in the "
     "region, sentinel elsewhere; fresh targets have the source's shape/dtype); calls that must be rejected (mis-aligned region) "
@@ -29,8 +29,8 @@ ASSUMPTIONS = [
     "targets live in in-memory zarr stores wrapped by the tracing store; reading back uses the unwrapped store and plain zarr",
 ]
 
-ALL_CLASSES = ("fresh", "fresh", "group", "existing-same", "existing-diff", "existing-diff", "region-aligned", "region-aligned", "region-aligned", "sharded", "region-misaligned", "existing-smaller", "existing-larger", "existing-dtype")
-REJECT = ("region-misaligned", "existing-smaller", "existing-larger-unaligned", "region-malformed:short-tuple")
+ALL_CLASSES = ("fresh", "fresh", "group", "existing-same", "existing-diff", "existing-diff", "region-aligned", "region-aligned", "region-aligned", "sharded", "region-misaligned", "existing-smaller", "existing-larger", "existing-dtype", "region-malformed")
+REJECT = ("region-misaligned", "existing-smaller", "existing-larger-unaligned", "region-malformed:short-tuple", "region-malformed:negative-start", "region-malformed:step")
 
 
 def case_strategy(opts=None, max_ops=4):
